@@ -66,6 +66,6 @@ def main():
         json.dump(m, f, indent=1)
         f.write("\n")
 
-HOOK_COMMITS = []
+HOOK_COMMITS = ["6e4993e"]
 if __name__ == "__main__":
     main()
